@@ -162,9 +162,10 @@ def run_parallel(modname, fn, programs, payload, jobs=None):
 _KNOWN = None
 
 
-def is_known(key):
-    """does `key` match a finding listed as known in /verif/known_findings.json?  (read-only; used only to keep listed
-    findings from using up the budget of reported failures, so that they cannot mask a new one)"""
+def known_index(key):
+    """index (1-based) of the first finding listed as known in /verif/known_findings.json that `key` matches, else 0
+    (read-only; used only to budget recorded failures per listed finding, so that a listed finding can neither use up the
+    budget of new failures nor that of another listed finding)"""
     global _KNOWN
     if _KNOWN is None:
         import json
@@ -184,15 +185,21 @@ def is_known(key):
                         _KNOWN.append(lambda key, pre=k['key']: key.startswith(pre))
         except OSError:
             pass
-    return any(m(key) for m in _KNOWN)
+    for i, m in enumerate(_KNOWN):
+        if m(key):
+            return i + 1
+    return 0
+
+
+def is_known(key):
+    return bool(known_index(key))
 
 
 def room(failures, key, new_cap, known_cap=6):
-    """budget test for one more recorded failure: listed findings and new failures are budgeted separately"""
-    kn = is_known(key)
-    n = sum(1 for f in failures if f.get('_known', False) == kn)
+    """budget test for one more recorded failure: new failures share one budget, every listed finding has its own"""
+    kn = known_index(key)
+    n = sum(1 for f in failures if (f.get('_known') or 0) == kn)
     return (n < (known_cap if kn else new_cap)), kn
-
 
 def merge(name, res, rule, scope, exhaustive=False, max_fail=400):
     ev = 0
